@@ -31,7 +31,7 @@ for fn, params, spec in [
     contract(M + fn, params=params, returns=BOOL, ensures=[f'result == {spec}'], opaque=True, properties=['C01'])
 
 contract(M + 'match_subselectors', params=dict(self=CSSMATCH, el=NODE, selectors=TSeq(SELLIST)), returns=BOOL,
-         requires=['el is not None', 'wf_subs(selectors, 0)'] + WF,
+         requires=['el is not None', 'is_tag(el)', 'wf_subs(selectors, 0)'] + WF,
          ensures=['result == all_subs(self, self.namespaces, self.iframe_restrict, el, selectors, 0)'],
          loops={1: dict(var='sel', invariant=['(match and all_subs(self, self.namespaces, self.iframe_restrict, el, selectors, _i1)) == '
                                               'all_subs(self, self.namespaces, self.iframe_restrict, el, selectors, 0)',
@@ -40,7 +40,7 @@ contract(M + 'match_subselectors', params=dict(self=CSSMATCH, el=NODE, selectors
 
 REL = dict(self=CSSMATCH, el=NODE, relation=SELLIST)
 contract(M + 'match_past_relations', params=REL, returns=BOOL,
-         requires=['el is not None', 'ir_wf_list(relation)', 'len(relation.selectors) >= 1', 'not sel_is_null(relation.selectors[0])',
+         requires=['el is not None', 'is_tag(el)', 'ir_wf_list(relation)', 'len(relation.selectors) >= 1', 'not sel_is_null(relation.selectors[0])',
                    "relation.selectors[0].rel_type == ' ' or relation.selectors[0].rel_type == '>' or "
                    "relation.selectors[0].rel_type == '~' or relation.selectors[0].rel_type == '+'"] + WF,
          ensures=['result == sem_rel(self, self.namespaces, self.iframe_restrict, el, relation)'],
@@ -65,7 +65,7 @@ contract(M + 'match_future_child', params=dict(self=CSSMATCH, parent=NODE, relat
                                    'seq_any(self, self.namespaces, self.iframe_restrict, _seq1, relation, 0)'])},
          properties=['C01'])
 contract(M + 'match_future_relations', params=REL, returns=BOOL,
-         requires=['el is not None', 'ir_wf_list(relation)', 'len(relation.selectors) >= 1', 'not sel_is_null(relation.selectors[0])',
+         requires=['el is not None', 'is_tag(el)', 'ir_wf_list(relation)', 'len(relation.selectors) >= 1', 'not sel_is_null(relation.selectors[0])',
                    "relation.selectors[0].rel_type == ': ' or relation.selectors[0].rel_type == ':>' or "
                    "relation.selectors[0].rel_type == ':~' or relation.selectors[0].rel_type == ':+'"] + WF,
          ensures=['result == sem_rel(self, self.namespaces, self.iframe_restrict, el, relation)'],
@@ -77,17 +77,52 @@ contract(M + 'match_future_relations', params=REL, returns=BOOL,
          properties=['C01'])
 RELWF = ["ir_wf_list(relation)", "len(relation.selectors) >= 1",
          "sel_is_null(relation.selectors[0]) or is_none(relation.selectors[0].rel_type) or rel_ok(relation.selectors[0].rel_type)"]
-contract(M + 'match_relations', params=REL, returns=BOOL, requires=['el is not None'] + RELWF + WF,
+contract(M + 'match_relations', params=REL, returns=BOOL, requires=['el is not None', 'is_tag(el)'] + RELWF + WF,
          ensures=['result == sem_rel(self, self.namespaces, self.iframe_restrict, el, relation)'], properties=['C01'])
 
-for fn, params, spec in [
-    ('match_lang', dict(self=CSSMATCH, el=NODE, langs=TSeq(SELLANG)), 'sem_lang(self, el, langs)'),
-]:
-    contract(M + fn, params=params, returns=BOOL, ensures=[f'result == {spec}'], opaque=True, properties=['C01'])
+# :lang() (C13): the inherited language, then the memo table of content-language pragmas, then the pragma itself
+OPT_STR_ = TOpt(STR)
+_LC = 'self.cached_meta_lang'
+_LAST = f'{_LC}[len(old({_LC}))]'
+contract(M + 'match_lang', params=dict(self=CSSMATCH, el=NODE, langs=TSeq(SELLANG)), returns=BOOL,
+         requires=['el is not None', 'is_tag(el)'] + WF,
+         ensures=['result == sem_lang(self, el, langs)'],
+         locals=dict(parent=NODE, found_lang=OPT_STR_, last=NODE, root=NODE, content=OPT_STR_, attr=OPT_STR_, attr_ns=OPT_STR_),
+         loops={1: dict(invariant=['parent is not None', 'is_tag(parent)',
+                                   'implies(found_lang is not None, found_lang == inh_lang(self, el))',
+                                   'implies(found_lang is None, inh_lang(self, parent) == inh_lang(self, el) and doc_top(self, parent) == doc_top(self, el))'],
+                        decreases='depth(parent) + 1'),
+                2: dict(assume_elem=['implies(is_lang_key(self, parent, k), is_str_val(v))'],
+                        invariant=['found_lang is None', '_seq2 == npairs(parent)',
+                                   'own_lang(self, parent, _seq2, _i2) == own_lang(self, parent, _seq2, 0)']),
+                3: dict(var='cache',
+                        invariant=['implies(not cached, found_lang is None)',
+                                   'implies(cached, meta_applies(self, root) and found_lang == meta_lang(self, root))',
+                                   f'_seq3 == {_LC}', 'lang_cache_ok(self, _seq3, _i3)']),
+                5: dict(var='child', assume_elem=['child is not None and is_tag(child)'],
+                        invariant=['not found', "parent == (root if tag == 'html' else html_of(self, root))",
+                                   '_seq5 == tag_children(self, parent, self.is_html)',
+                                   'first_named(self, _seq5, _i5, tag) == first_named(self, _seq5, 0, tag)']),
+                6: dict(var='child2',
+                        invariant=['found_lang is None', f'{_LC} == old({_LC})', '_seq6 == contents(parent)',
+                                   'metas_from(self, parent, _seq6, _i6) == metas_from(self, parent, _seq6, 0)']),
+                7: dict(assume_elem=["implies(ascii_lower(k) == 'http-equiv' or ascii_lower(k) == 'content', is_str_val(v))"],
+                        invariant=['found_lang is None', f'{_LC} == old({_LC})', '_seq7 == npairs(child2)',
+                                   'meta_scan(_seq7, _i7, c_lang, content) == meta_scan(_seq7, 0, False, None)']),
+                8: dict(var='patterns',
+                        invariant=['match == (_i8 > 0)', 'all_langs(langs, val(found_lang), _i8) == all_langs(langs, val(found_lang), 0)']),
+                9: dict(var='pattern',
+                        invariant=['_seq9 == patterns.languages',
+                                   'any_range(_seq9, val(found_lang), 0) == (match or any_range(_seq9, val(found_lang), _i9))'])},
+         uses=[dict(fact=f'implies(lang_cache_ok(self, old({_LC}), 0) and len({_LC}) == len(old({_LC})) + 1 and '
+                         f'{_LC} == old({_LC}) + [{_LAST}] and {_LAST}[0] is not None and meta_applies(self, {_LAST}[0]) and '
+                         f'{_LAST}[1] == meta_lang(self, {_LAST}[0]), lang_cache_ok(self, {_LC}, 0))',
+                    by=['lemma.C04_lang_snoc_base', 'lemma.C04_lang_snoc_step'])],
+         properties=['C13', 'C04', 'C01'])
 
 CTX = 'self, self.namespaces, self.iframe_restrict'
 contract(M + 'match_selectors', params=dict(self=CSSMATCH, el=NODE, selectors=SELLIST), returns=BOOL,
-         requires=['el is not None', 'ir_wf_list(selectors)'] + WF,
+         requires=['el is not None', 'is_tag(el)', 'ir_wf_list(selectors)'] + WF,
          ensures=[f'result == sem_list({CTX}, el, selectors)'],
          locals=dict(namespaces=NSMAP, iframe_restrict=BOOL),
          loops={1: dict(var='selector',
@@ -144,7 +179,7 @@ contract('soupsieve.css_match._DocumentNav.create_fake_parent', params=dict(el=N
 contract(M + 'match_nth_tag_type', params=dict(self=CSSMATCH, el=NODE, child=NODE), returns=BOOL, requires=['el is not None', 'child is not None'],
          ensures=['result == same_type(self, el, child)'], properties=['C02'])
 contract(M + 'match_nth', params=dict(self=CSSMATCH, el=NODE, nth=TSeq(SELNTH)), returns=BOOL,
-         requires=['el is not None', 'wf_nths(nth, 0)'] + WF,
+         requires=['el is not None', 'is_tag(el)', 'wf_nths(nth, 0)'] + WF,
          ensures=[f'result == sem_nth({CTX}, el, nth)'],
          locals=dict(parent=NODE),
          loops={1: dict(var='n', invariant=['matched', f'all_nth({CTX}, el, nth, _i1) == all_nth({CTX}, el, nth, 0)', 'wf_nths(nth, _i1)']),
